@@ -324,6 +324,55 @@ class Gen:
         r.shuffle(ms)
         return {"macros": ms, "input": inp}
 
+    def painted_paste(self):
+        """a PAINTED name used as an operand of ##: a self-referential macro passes its own name through the
+        argument of an outer macro (where pre-expansion paints it) into a nested macro that pastes it; the
+        result of ## is a NEW token that is rescanned normally, whether it spells a macro name (object- or
+        function-like), a number or nothing known"""
+        r = self.r
+        via = lambda: r.choice(["define", "define", "D"])
+        ms = []
+        levels = r.choice([2, 2, 2, 3])
+        pa, pb = r.choice([("a", "b"), ("x", "y")])
+        order = r.choice([pa + "##" + pb, pa + " ## " + pb, pa + "##" + pb + " " + r.choice(["", "+ 1"])]).strip()
+        ms.append({"name": "CAT_", "params": [pa, pb], "body": order, "via": via()})
+        if levels == 3:
+            ms.append({"name": "CAT2", "params": ["a", "b"], "body": "CAT_(a,b)", "via": via()})
+            ms.append({"name": "CAT", "params": ["a", "b"], "body": r.choice(["CAT2(a,b)", "CAT2(a, b)"]), "via": via()})
+        else:
+            ms.append({"name": "CAT", "params": ["a", "b"], "body": r.choice(["CAT_(a,b)", "CAT_(a, b)", "CAT_(a,b) + 0"]), "via": via()})
+        kind = r.choice(["obj", "obj", "fun", "fun2", "right", "both"])
+        suffix = r.choice(["1", "2", "_y", "X", "1"])
+        if kind == "obj":
+            ms.append({"name": "X", "params": None, "body": "CAT(X," + suffix + ")" + r.choice(["", " + 1"]), "via": via()})
+            inp = r.choice(["X", "X + X", "CAT(X,1)"])
+            pasted = "X" + suffix
+        elif kind == "fun":
+            ms.append({"name": "X", "params": ["n"], "body": "CAT(X,n)", "via": via()})
+            inp = "X(" + suffix + ")"
+            pasted = "X" + suffix
+        elif kind == "fun2":
+            ms.append({"name": "X", "params": ["n"], "body": "CAT(X,n)", "via": via()})
+            inp = "X(" + suffix + ")(3)"
+            pasted = "X" + suffix
+        elif kind == "right":
+            ms.append({"name": "X", "params": None, "body": "CAT(" + r.choice(["Y", "p", "X"]) + ",X)", "via": via()})
+            inp = "X"
+            pasted = r.choice(["YX", "pX", "XX"])
+        else:
+            ms.append({"name": "X", "params": None, "body": "CAT(X,X)", "via": via()})
+            inp = "X"
+            pasted = "XX"
+        # what the pasted spelling means
+        c = r.random()
+        if re.fullmatch(r"[A-Za-z_]\w*", pasted) and pasted not in ("X",):
+            if c < 0.45:
+                ms.append({"name": pasted, "params": None, "body": r.choice(["5", "7 + 1", "X", "X + 5", pasted]), "via": via()})
+            elif c < 0.75:
+                ms.append({"name": pasted, "params": ["y"], "body": r.choice(["y + 1", "y", "X(y)", "y * 2"]), "via": via()})
+        r.shuffle(ms)
+        return {"macros": ms, "input": inp}
+
     def malformed(self):
         r = self.r
         c = self.case()
@@ -382,7 +431,9 @@ class C03(Check):
             "crossed with invocations with 0..n+2 arguments incl. empty, parenthesised and comma-in-parentheses arguments, "
             "nested calls, bare function-like names and extra parenthesised groups after a call; a stream of painted "
             "self-references (own name / name of an enclosing macro not followed by '(' in a replacement list) passed as "
-            "argument to a macro that applies its parameter (m(2), m a, ID(x)(...)); an exhaustive block of "
+            "argument to a macro that applies its parameter (m(2), m a, ID(x)(...)); a stream of painted names used as "
+            "## operands through two- and three-level paste helpers (results: macro names, numbers, unknown names); "
+            "an exhaustive block of "
             "all tables {A:=b1; F(x):=b2} with bodies of <= 2 tokens; a malformed stream.  A case is non-trivial when the "
             "expansion differs from the input AND a function-like macro, a # / ## operator or a nested replacement took part")
     assumptions = ["token lists are produced by the real Lexer.tokenize on ASCII text (lexing itself is C17's subject)",
@@ -429,6 +480,13 @@ class C03(Check):
             out.append(c)
             self._selfref.append(c)
         self.hist["selfref_applied_block"] = n_sr
+        n_pp = 300 if quick else 5000
+        self._ppaste = []
+        for _ in range(n_pp):   # a painted name as operand of ##
+            c = g.painted_paste()
+            out.append(c)
+            self._ppaste.append(c)
+        self.hist["painted_paste_block"] = n_pp
         n_op = 200 if quick else 4000
         for _ in range(n_op):
             out.append(g.operand_only())
@@ -771,9 +829,11 @@ class C03(Check):
         n, bad = 0, []
         limit = 40 if self.tier == "quick" else 400
         spec_of = {self.key(c): sa for c, sa in self._spec_log}
-        for c in getattr(self, "_selfref", []):
-            if n >= limit:
-                break
+        per_stream = {}
+        streams = [("selfref", c) for c in getattr(self, "_selfref", [])] + [("ppaste", c) for c in getattr(self, "_ppaste", [])]
+        for stream, c in streams:
+            if per_stream.get(stream, 0) >= limit:
+                continue
             sa = spec_of.get(self.key(c))
             if sa is None or sa[0] != "Ok":
                 continue
@@ -786,14 +846,16 @@ class C03(Check):
             except Exception as e:  # noqa
                 a, b = ["EXC", type(e).__name__], None
             n += 1
+            per_stream[stream] = per_stream.get(stream, 0) + 1
             if a != [True, False] or b != [False, True]:
                 bad.append({"case": c, "k": k, "eq": a, "neq": b, "spec": sa[1]})
+        self.hist["targeted_if_route_cases_per_stream"] = per_stream
         self.hist["selfref_if_route_cases"] = n
         self.hist["selfref_if_route_disagreements"] = len(bad)
         if bad:
             # the #if route disagrees with S: a violation candidate that expand() must show as well;
             # reported here so that the route itself is never silently wrong
-            return [f"#if route: `#if (INPUT) == k` disagrees with S on {len(bad)} of {n} self-reference cases: {json.dumps(bad[0])}"]
+            return [f"#if route: `#if (INPUT) == k` disagrees with S on {len(bad)} of {n} targeted (self-reference / painted-paste) cases: {json.dumps(bad[0])}"]
         return []
 
     def self_tests(self):
@@ -893,11 +955,13 @@ class C03(Check):
             return ["gcc not available: S not validated against an external preprocessor"]
         d = common.scratch() / "c03gcc"
         d.mkdir(parents=True, exist_ok=True)
-        limit = 300 if self.tier == "quick" else 4500
+        limit = 360 if self.tier == "quick" else 5000
         idx = list(range(len(self._spec_log)))
         self.rng.shuffle(idx)
         # the self-reference stream is validated against gcc first (a fixed share of the budget)
-        sr_keys = {self.key(c) for c in getattr(self, "_selfref", [])[:(60 if self.tier == "quick" else 600)]}
+        share = 60 if self.tier == "quick" else 600
+        sr_keys = {self.key(c) for c in getattr(self, "_selfref", [])[:share]} | \
+                  {self.key(c) for c in getattr(self, "_ppaste", [])[:share]}
         first = [i for i in idx if self.key(self._spec_log[i][0]) in sr_keys]
         idx = first + [i for i in idx if i not in set(first)]
         self.oracle["selfref_cases_first"] = len(first)
